@@ -346,6 +346,18 @@ func edgeDominates(from, to, b *ssa.BasicBlock) bool {
 // fromIdx within it) to any instruction satisfying target, without passing an instruction
 // satisfying barrier? Returns a witness instruction or nil.
 func reachableAvoiding(from *ssa.BasicBlock, fromIdx int, target, barrier func(ssa.Instruction) bool) ssa.Instruction {
+	return reachableAvoidingB(from, fromIdx, target, barrier, nil)
+}
+
+// reachableAvoidingB additionally never enters a block of blockBarrier (edge barrier)
+func reachableAvoidingB(from *ssa.BasicBlock, fromIdx int, target, barrier func(ssa.Instruction) bool, blockBarrier map[*ssa.BasicBlock]bool) ssa.Instruction {
+	return reachableAvoidingE(from, fromIdx, target, barrier, blockBarrier, nil)
+}
+
+type cfgEdge struct{ from, to *ssa.BasicBlock }
+
+// reachableAvoidingE additionally never takes an edge of edgeBarrier
+func reachableAvoidingE(from *ssa.BasicBlock, fromIdx int, target, barrier func(ssa.Instruction) bool, blockBarrier map[*ssa.BasicBlock]bool, edgeBarrier map[cfgEdge]bool) ssa.Instruction {
 	type st struct {
 		b *ssa.BasicBlock
 		i int
@@ -370,6 +382,9 @@ func reachableAvoiding(from *ssa.BasicBlock, fromIdx int, target, barrier func(s
 			continue
 		}
 		for _, succ := range s.b.Succs {
+			if blockBarrier[succ] || edgeBarrier[cfgEdge{s.b, succ}] {
+				continue
+			}
 			if !seen[succ] {
 				seen[succ] = true
 				work = append(work, st{succ, 0})
